@@ -407,3 +407,21 @@ sethandle = lambda flavours=("rel",), env=None, name="set-handle": Stream(
 PROPS["C13"].streams += [sethandle(("rel",), {"HX_ALLOC": "tag"}, "set-handle-tag"), sethandle(("dbg",), None, "set-handle")]
 PROPS["C04"].streams.append(sethandle(("rel", "dbg")))
 PROPS["C16"].streams.append(sethandle(("rel",)))
+
+# ---- third layer of client calls (model: coq/theories/HHist3.v, theorems: HHist3_proofs.v) ----
+API3_WORDS = ("ni ", "su ", "mku ", "mkn ", "nf ", "sf ", "nc", "sc ", "sb ", "bb ", "nn", "nu", "mv ", "pushmv ", "maddmv ", "tsetmv ", "btmv ",
+              "idec ", "bs0 ", "sert ", "preds ", "vals ")
+api3 = lambda flavours=("rel",), env=None, name="api3": Stream(
+    name, "hist", histgen.api3_cases, args=(LDEF, CAP, "none", 0), flavours=flavours, env=env, timeout=600,
+    nontrivial=lambda c, l: any(("; " + w) in ("; " + c) for w in API3_WORDS),
+    rule="the public calls outside HHist.op / HHist2: cbor_new_int8..64 (value not initialised) + cbor_set_uint8..64 + cbor_mark_uint/negint for every width and "
+         "the boundary values 0, 23, 24, 255, 256, 65535, 65536, 2^32-1, 2^32, 2^64-1; cbor_new_float2/4/8 + cbor_set_float2/4/8 on zero / subnormal / normal / "
+         "infinite / quiet and signalling NaN patterns and values no half can hold; cbor_new_ctrl + cbor_set_ctrl for all 256 values, cbor_set_bool, cbor_build_bool, "
+         "cbor_new_null, cbor_new_undef; cbor_move alone and in the documented idioms push / map_add / tag_set_item / build_tag (f(.., cbor_move(x))) incl. the failed push of a "
+         "moved sole reference; cbor_intermediate_decref; cbor_build_string with embedded NUL / empty / invalid UTF-8 / multi-byte text; the eight type-specific serializers "
+         "with every buffer size 0..size+1; every predicate (cbor_typeof, cbor_isa_*, cbor_is_*) and value getter as numbers; plus random rule-following histories "
+         "mixing these calls with those of the hist stream (a value is never read before it is stored; cbor_move alone only with a second reference); compared per step "
+         "(return values, every refcount the client can see, sizes / capacities), final live-block count, complete allocator trace; non-trivial = uses one of the new calls")
+PROPS["C04"].streams.append(api3(("rel", "dbg")))
+PROPS["C03"].streams.append(api3(("rel",)))
+PROPS["C13"].streams.append(api3(("rel",), {"HX_ALLOC": "tag"}, "api3-tag"))
